@@ -71,11 +71,46 @@ def nvec(kind, d, m):
     return {"state": d * d, "povm": m * d * d, "gate": d ** 4, "mprocess": m * d ** 4}[kind]
 
 
-def build(kind, c, sv, m, para, order, eps, strict=False):
+OBJFORMS = ("plain", "fortran", "strided", "readonly", "fresh_csys", "copy", "from_var")
+
+
+def lay(a, form):
+    """the same numbers in another memory layout: what the constructor is handed (and the object then holds)"""
+    a = np.asarray(a, dtype=np.float64)
+    if form == "fortran" and a.ndim == 2:
+        return np.asfortranarray(a.copy())                      # column-major (a transposed view of a C array)
+    if form in ("strided", "fortran"):
+        big = np.full(tuple(2 * k for k in a.shape), 1e300)     # non-contiguous view of a larger buffer
+        sl = (slice(None, None, 2),) * a.ndim
+        big[sl] = a
+        return big[sl]
+    b = a.copy()
+    if form == "readonly":
+        b.setflags(write=False)                                 # an object that writes into its own input data raises
+    return b
+
+
+def build(kind, c, sv, m, para, order, eps, strict=False, form="plain"):
+    """form: memory layout of the arrays handed to the constructor / a fresh (equal, not identical) CompositeSystem /
+    the route by which the object is obtained (constructor, .copy(), generate_from_var(to_var()))"""
+    o = build0(kind, c, sv, m, para, order, eps, strict, form)
+    if form == "copy":
+        return o.copy()
+    if form == "from_var" and not para:
+        # (generate_from_var does NOT inherit mode_proj_order - its default is the literal "eq_ineq" - so it is passed on explicitly)
+        return o.generate_from_var(o.to_var(), mode_proj_order=o.mode_proj_order)
+    return o
+
+
+def build0(kind, c, sv, m, para, order, eps, strict, form):
     from quara.objects.state import State
     from quara.objects.povm import Povm
     from quara.objects.gate import Gate
     from quara.objects.mprocess import MProcess
+    if form == "fresh_csys":
+        from quara.objects.composite_system_typical import generate_composite_system
+        key = [k for k, v in _CS.items() if v[0] is c][0]
+        c = generate_composite_system(*key)                    # equal to the cached one, but another instance
     d = c.dim; dd = d * d
     sv = np.array(sv, dtype=np.float64)
     kw = dict(is_physicality_required=bool(strict), on_para_eq_constraint=para, mode_proj_order=order,
@@ -83,12 +118,12 @@ def build(kind, c, sv, m, para, order, eps, strict=False):
     if strict:      # non-default object configuration (only meaningful for inputs that pass quara's own validation)
         kw.update(is_estimation_object=False)
     if kind == "state":
-        return State(c, sv.copy(), **kw)
+        return State(c, lay(sv, form), **kw)
     if kind == "povm":
-        return Povm(c, [v.copy() for v in sv.reshape(m, dd)], **kw)
+        return Povm(c, [lay(v, form) for v in sv.reshape(m, dd)], **kw)
     if kind == "gate":
-        return Gate(c, sv.reshape(dd, dd).copy(), **kw)
-    return MProcess(c, [h.copy() for h in sv.reshape(m, dd, dd)], **kw)
+        return Gate(c, lay(sv.reshape(dd, dd), form), **kw)
+    return MProcess(c, [lay(h, form) for h in sv.reshape(m, dd, dd)], **kw)
 
 
 def blocks(kind, B, m, sv):
@@ -246,7 +281,8 @@ def impl_run(case, c, hist=True, order=None, level=None, obj=None):
             o = build(kind, c, case["sv"], m, para, order, eps)
     else:
         # flagmismatch: the object's own on_para_eq_constraint is the OPPOSITE of the explicit argument of the variable-level call
-        o = build(kind, c, case["sv"], m, (not para) if mism else para, order, eps)
+        o = build(kind, c, case["sv"], m, (not para) if mism else para, order, eps, form=case.get("objform", "plain"))
+    c = o.composite_system                      # (a fresh instance for objform = fresh_csys)
     R = Run(); R.o = o; R.order = order; R.level = level
     R.cfg_before = config_of(o)
     buf = io.StringIO()
@@ -260,7 +296,10 @@ def impl_run(case, c, hist=True, order=None, level=None, obj=None):
               if mism:
                   var = np.array(type(o).convert_stacked_vector_to_var(c, np.array(case["sv"], dtype=np.float64), on_para_eq_constraint=para), dtype=np.float64)
               else:
-                  var = o.to_var()
+                  # a PRIVATE copy: State.to_var() (on_para_eq_constraint=False) returns the object's internal array, and the routine
+                  # records the array it is given as history x[0] - handing over the object's own storage would let the caller-overwrite
+                  # step below corrupt the object through the harness's own aliasing
+                  var = np.array(o.to_var(), dtype=np.float64)
               view = case.get("argview", "plain")
               if view == "strided":       # same numbers, non-contiguous memory
                   big = np.full(2 * len(var), 1e300); big[::2] = var; var = big[::2]
@@ -283,6 +322,7 @@ def impl_run(case, c, hist=True, order=None, level=None, obj=None):
         R.Q = [to_sv(kind, v, level) for v in h["q"]]
         R.Y = [None if v is None else to_sv(kind, v, level) for v in h["y"]]
         R.errs = [None if e is None else float(e) for e in h["error_value"]]
+        R.raw_h = h
         R.hist_lens = (len(h["x"]), len(h["y"]), len(h["p"]), len(h["q"]), len(h["error_value"]))
         R.K = len(R.X) - 1
     else:
@@ -648,16 +688,34 @@ def chk_run(ctx, case):
             ctx.violation(sub, site, "argument-form-changes-result", "argument view %s / object flag %s the explicit on_para_eq_constraint: result differs from the plain call by %.3e"
                           % (case.get("argview"), "differs from" if case.get("flagmismatch") else "equals", float(np.abs(Rp.res_var - R.res_var).max())), case)
 
+    # ---- object form (layout of the arrays held by the object / fresh CompositeSystem instance / construction route): bit-identical result
+    if case.get("objform", "plain") != "plain":
+        Rq = impl_run(dict(case, objform="plain"), c, hist=False)
+        if not np.array_equal(Rq.res_sv, R.res_sv):
+            ctx.violation(sub, site, "object-form-changes-result", "object form %s: result differs from the plainly constructed object's by %.3e"
+                          % (case.get("objform"), float(np.abs(Rq.res_sv - R.res_sv).max())), case)
+
+    # ---- the caller overwrites every array it got back (result, history entries); the next call on the same object must not notice
+    if case.get("scribble"):
+        got = [R.result] + [v for key in ("x", "y", "p", "q") for v in R.raw_h[key] if v is not None]
+        for v in got:
+            a = v if isinstance(v, np.ndarray) else v.to_stacked_vector()
+            if isinstance(a, np.ndarray) and a.flags.writeable:
+                a[...] = 12345.678
+
     # ---- is_iteration_history=False returns the same point
     R2 = impl_run(case, c, hist=False, obj=R.o)       # second call, on the SAME object, without history
     if not np.array_equal(R2.res_sv, R.res_sv) or R2.warned != R.warned:
-        ctx.violation(sub, site, "history-flag-changes-result", "a second call on the same object with is_iteration_history=False gives a different result / warning", case)
+        ctx.violation(sub, site, "history-flag-changes-result", "a second call on the same object with is_iteration_history=False%s gives a different result / warning"
+                      % (" (after the caller overwrote the arrays returned by the first call)" if case.get("scribble") else ""), case)
 
     nontriv = K >= 2 and not in_band and cert_ok
     lab = "%s/%s/%s/%s/%s" % (kind, case["level"], case["order"], case["gen"], outcome if mi >= 1000 else "fuel-edge")
     if case["level"] == "var":
         av = "run:arg:%s%s" % (case.get("argview", "plain"), "+flagmismatch" if case.get("flagmismatch") else "")
         ctx.dist[av] = ctx.dist.get(av, 0) + 1
+    of = "run:objform:%s" % case.get("objform", "plain")
+    ctx.dist[of] = ctx.dist.get(of, 0) + 1
     ctx.count(sub, key=key, nontrivial=nontriv, label=lab)
     ctx.dist["run:psd-decisions:" + R.cert["how"]] = ctx.dist.get("run:psd-decisions:" + R.cert["how"], 0) + 1
     if in_band:
@@ -677,12 +735,18 @@ def gen_point(rs, kind, B, m, gen):
     if gen.startswith("near"):
         sig = float(gen.split(":")[1])
         return rand_physical(kind, B, m, rs) + sig * rs.normal(size=n)
+    if gen.startswith("allneg"):        # every operator negative semidefinite: the cone projection of the input itself is 0
+        return -float(gen.split(":")[1]) * rs.uniform(0.3, 1.0) * rand_physical(kind, B, m, rs)
+    if gen.startswith("fullrank"):      # full-rank operators plus noise
+        return rand_physical(kind, B, m, rs, rank=d) + float(gen.split(":")[1]) * rs.normal(size=n)
+    if gen.startswith("degen"):         # exactly degenerate spectra: a multiple of the maximally mixed point (0 = the zero vector)
+        return float(gen.split(":")[1]) * origin(kind, d, m)[0]
     R = float(gen.split(":")[1])
     v = rs.normal(size=n)
     return v * (R * rs.uniform(0.3, 1.0) / np.linalg.norm(v))
 
 
-def gen_case(ctx, systems, level=None, order=None, gen=None, mi=None, kind=None, heavy_ok=True):
+def gen_case(ctx, systems, level=None, order=None, gen=None, mi=None, kind=None, heavy_ok=True, objform=None):
     rng = ctx.rng
     kind = kind or rng.choice(KINDS)
     sysm = rng.choice(systems)
@@ -703,7 +767,8 @@ def gen_case(ctx, systems, level=None, order=None, gen=None, mi=None, kind=None,
     return {"kind": kind, "sys": list(sysm), "m": m, "para": rng.random() < 0.5, "order": order or rng.choice(["eq_ineq", "ineq_eq"]),
             "eps": eps, "max_iter": mi, "level": level or rng.choice(["obj", "var"]), "gen": gen,
             "sv": [float(v) for v in sv], "sseed": rng.getrandbits(31),
-            "argview": rng.choice(["plain", "plain", "strided", "readonly"]), "flagmismatch": rng.random() < 0.3}
+            "argview": rng.choice(["plain", "plain", "strided", "readonly"]), "flagmismatch": rng.random() < 0.3,
+            "objform": objform or (rng.choice(OBJFORMS[1:]) if rng.random() < 0.3 else "plain"), "scribble": rng.random() < 0.5}
 
 
 def sub_run(ctx):
@@ -718,6 +783,20 @@ def sub_run(ctx):
         for level in ("obj", "var"):
             for order in ("eq_ineq", "ineq_eq"):
                 cases.append(gen_case(ctx, systems, level=level, order=order, kind=kind, heavy_ok=not ctx.quick))
+    # every object form (memory layout of the arrays the object holds, fresh CompositeSystem instance, construction route) on both routines
+    i = 0
+    for form in OBJFORMS[1:]:
+        for level in ("obj", "var"):
+            cases.append(gen_case(ctx, SYSTEMS_QUICK, level=level, kind=KINDS[i % 4], gen="near:0.1", objform=form)); i += 1
+    # spectra: all-negative, full-rank, exactly degenerate (positive / negative multiple of the maximally mixed point, the zero vector)
+    # negative spectra with the CONE projected first (order ineq_eq: the first projection sees the input itself): every type x both routines
+    for gen in ("allneg:3", "degen:-1.3"):
+        for kind in KINDS:
+            for level in ("obj", "var"):
+                cases.append(gen_case(ctx, SYSTEMS_QUICK, level=level, order="ineq_eq", kind=kind, gen=gen))
+    for gen in ("allneg:30", "fullrank:0.05", "degen:1.7", "degen:0"):
+        for level, order in (("obj", "ineq_eq"), ("var", "eq_ineq")):
+            cases.append(gen_case(ctx, SYSTEMS_QUICK, level=level, order=order, kind=KINDS[i % 4], gen=gen)); i += 1
     for _ in range(ctx.n(70, 600) if not getattr(ctx, "widen", False) else 250):
         cases.append(gen_case(ctx, systems, heavy_ok=not ctx.quick))
     # fuel edge cases: 0 (error branch), 1 (no test at all), 2, 3 and a fuel that is hit exactly
@@ -918,8 +997,41 @@ def chk_criterion(ctx, case):
     ctx.count(sub, key=(n, case["eps"], tuple(case["vecs"][0])), nontrivial=away, label="threshold-exact" if case.get("exact_threshold") else "random")
 
 
+def chk_settings(ctx, case):
+    """per-object threshold vs the global Settings: eps_proj_physical=None takes Settings.get_atol()/10 AT CONSTRUCTION, an explicit value
+    wins over Settings, and a later change of Settings does not reach an existing object; the loop stops by the object's own threshold"""
+    sub = "config"
+    from quara.settings import Settings
+    from quara.objects.state import State
+    c, B = csys("qubit", 1)
+    vec = np.array(case["sv"], dtype=float)
+    old = Settings.get_atol()
+    site = "QOperation.eps_proj_physical"
+    try:
+        Settings.set_atol(case["atol_build"])
+        o = State(c, vec.copy(), is_physicality_required=False, eps_proj_physical=case["eps"], mode_proj_order=case["order"])
+        want = case["atol_build"] / 10.0 if case["eps"] is None else case["eps"]
+        e0 = o.eps_proj_physical
+        Settings.set_atol(case["atol_later"])
+        e1 = o.eps_proj_physical
+        with contextlib.redirect_stdout(io.StringIO()):
+            res, h = o.calc_proj_physical(is_iteration_history=True)
+        errs = h["error_value"]
+    finally:
+        Settings.set_atol(old)
+    if e0 != want or e1 != want:
+        ctx.violation(sub, site, "settings-vs-object", "eps_proj_physical=%r under atol %g: object has %r, after Settings changed to %g: %r (expected %g both times)"
+                      % (case["eps"], case["atol_build"], e0, case["atol_later"], e1, want), case)
+    K = len(errs)
+    if K < 1000 and not (K >= 2 and errs[-1] < want and all(e >= want for e in errs[1:-1])):
+        ctx.violation(sub, "QOperation.calc_proj_physical", "settings-vs-object", "the loop did not stop by the object's own threshold %g: error values end %s" % (want, errs[-3:]), case)
+    ctx.count(sub, key=("settings", case["eps"], case["atol_build"], case["atol_later"], case["order"]), nontrivial=K >= 3, label="settings")
+
+
 def chk_config(ctx, case):
     sub = "config"
+    if "atol_build" in case:
+        return chk_settings(ctx, case)
     c, B = csys("qubit", 1)
     from quara.objects.state import State
     mode = case["mode"]
@@ -959,6 +1071,10 @@ def sub_criterion(ctx):
 
 def sub_config(ctx):
     cases = [{"mode": mo} for mo in ("eq_ineq", "ineq_eq", "ineq_eq ", "eq-ineq", "", "EQ_INEQ", "ineq")]
+    sv = [0.5, 0.45, -0.3, 0.6]
+    for eps, a0, a1 in ((None, 1e-9, 1e-5), (None, 1e-6, 1e-13), (1e-7, 1e-11, 1e-3), (1e-12, 1e-4, 1e-9)):
+        for order in ("eq_ineq", "ineq_eq"):
+            cases.append({"eps": eps, "atol_build": a0, "atol_later": a1, "order": order, "sv": sv})
     ctx.run_cases("config", chk_config, cases)
 
 
